@@ -101,6 +101,12 @@ func runCheck(id, tier string) int {
 	switch id {
 	case "C01":
 		return checkC01(tier)
+	case "C08":
+		return checkC08(tier)
+	case "C06":
+		return checkC06(tier)
+	case "C07":
+		return checkC07(tier)
 	case "C02", "C03":
 		return checkLedger(id, tier)
 	}
